@@ -9,8 +9,11 @@ import (
 	"bytes"
 	"errors"
 	"fmt"
+	"os"
 	"time"
 
+	"verif/internal/emu"
+	"verif/internal/prog"
 	"verif/internal/rig"
 )
 
@@ -79,5 +82,35 @@ func failingNeighbour(c *rig.Ctx) {
 		}
 		c.Count("failing_neighbour_cases", 1)
 		c.Exact(1)
+	})
+}
+
+// afterShutdown: an instance created after another one has been run and shut down (Run's
+// deferred Cleanup, or Cleanup after a frame loop) must be what it would be in a fresh process:
+// in particular its picture must not show anything of the earlier one (a program that switches
+// the LCD off at once never draws over what its frame buffer held).
+func afterShutdown(c *rig.Ctx) {
+	c.Require("after_shutdown_cases")
+	c.Part("after-shutdown", c.N(12, 96), func(i int64, r *rig.Rng) {
+		quiet := prog.Generate(r, prog.Options{LCDOff: true, CartType: 0})
+		if i%2 == 0 {
+			quiet = prog.LCDOffLoop()
+		}
+		loud := prog.Sprites(r)
+		pq, pl := emu.TempROM(quiet.ROM, "c25q"), emu.TempROM(loud.ROM, "c25l")
+		defer os.Remove(pq)
+		defer os.Remove(pl)
+		video := i%4 >= 2
+		first := emu.Run(emu.Scenario{ROM: quiet.ROM, Frames: 2, Video: video}, pq)
+		for k := 0; k < 1+int(i%3); k++ {
+			emu.Run(emu.Scenario{ROM: loud.ROM, Frames: 2 + r.Intn(3), Video: k%2 == 0}, pl)
+		}
+		again := emu.Run(emu.Scenario{ROM: quiet.ROM, Frames: 2, Video: video}, pq)
+		if d := emu.Diff(first, again); d != "" {
+			c.Violate("instance-after-shutdown-differs", fmt.Sprintf("a program that switches the LCD off at once, run before and after other instances were run and shut down in the same process: %s", d), nil)
+			return
+		}
+		c.Count("after_shutdown_cases", 1)
+		c.Case(rig.Hash(uint64(i), quiet.Hash, loud.Hash))
 	})
 }
